@@ -665,6 +665,11 @@ func c07Ops(x *c07Exec) []porcupine.Operation {
 	return ops
 }
 
+func stripIDs(evs []cEvent) []cEvent {
+	out := append([]cEvent{}, evs...)
+	return out
+}
+
 func renderEvents(evs []cEvent) []string {
 	var out []string
 	for _, e := range evs {
@@ -772,6 +777,16 @@ func c07Sub(args []string) int {
 			Check:   c07Check(sc, kind),
 			Outcome: c07Outcome}
 		stats, v := engine.ExploreSched(scen, bound, maxEx)
+		// determinism self-check: the same schedule twice must give identical observations
+		{
+			r1, d1 := r.runSched(func(i int, p *vsched.PointInfo) int { return len(p.Enabled) - 1 })
+			r2, d2 := r.runSched(func(i int, p *vsched.PointInfo) int { return len(p.Enabled) - 1 })
+			if engine.RenderSchedule(&engine.Execution{Result: r1}) != engine.RenderSchedule(&engine.Execution{Result: r2}) ||
+				strings.Join(renderEvents(stripIDs(d1.(*c07Exec).events)), "|") != strings.Join(renderEvents(stripIDs(d2.(*c07Exec).events)), "|") {
+				fmt.Println("HARNESS-ERROR nondeterminism: scenario", sc.name, "on", kind, "gives different observations for the same schedule")
+				return 2
+			}
+		}
 		// one sample schedule (default schedule)
 		res, d := r.runSched(func(i int, p *vsched.PointInfo) int { return 0 })
 		sample = append(sample, engine.RenderSchedule(&engine.Execution{Result: res}))
